@@ -1751,4 +1751,24 @@ theorem parseDocument_cmpl (d : Document) (f : Nat) (env : Env) (st : St) (ts : 
     · intro es ⟨hd, p, hes⟩
       exact ⟨by simp only [pdDocument]; omega, p, hes⟩
 
+/-! scanner-error-free inputs -/
+
+theorem clean_of_scannerErrs {inp : Input} (h : scannerErrs inp = []) (maxRec : Nat) (leak : Bool) :
+    Clean (inp.env maxRec leak) inp.toks := by
+  unfold scannerErrs at h
+  have h1 := (List.append_eq_nil_iff.mp h).1
+  have h2 := (List.append_eq_nil_iff.mp h).2
+  refine ⟨?_, h2⟩
+  intro t ht
+  have := List.flatMap_eq_nil_iff.mp h1 t ht
+  exact this
+
+theorem init_errors_clean {inp : Input} (h : scannerErrs inp = []) : inp.init.errors = [] := by
+  have hc := clean_of_scannerErrs h 0 false
+  unfold Input.init
+  cases hts : inp.toks with
+  | nil => exact hc.2
+  | cons t ts => exact hc.1 t (by simp [hts])
+
+
 end ApiFu.C06
